@@ -361,6 +361,42 @@ def derived_producers(ctx):
                              p.commands[nm].result, desc)
 
 
+def fields_without_spread(ctx):
+    """fields whose present cells all hold one value (a single cell, a constant grid), as masked arrays and as plain ndarrays - what a plug-in command may hand
+    over -, through every fuzzy producer that derives its mapping from the data (the z-score conversions, the mean-to-mid conversion, CvtToFuzzy with default
+    thresholds): the mapping is undefined there, and whatever the command does - refuse the field, return it all missing - no PRESENT cell of a result may lie
+    outside [-1, 1]; a NaN is outside (F27: on a plain field the z-score conversions returned NaN at every cell)"""
+    import numpy
+    cases = [("CvtToFuzzyZScore", {}), ("CvtToFuzzyZScore", {"TrueThresholdZScore": 1, "FalseThresholdZScore": -1}), ("CvtToFuzzyZScore", {"TrueThresholdZScore": -2, "FalseThresholdZScore": 0.5}),
+             ("CvtToFuzzyCurveZScore", {"ZScoreValues": [-1, 0, 1], "FuzzyValues": [-1, 0, 1]}), ("CvtToFuzzyMeanToMid", {"IgnoreZeros": False, "FuzzyValues": [-1, -0.5, 0, 0.5, 1]}),
+             ("CvtToFuzzy", {}), ("CvtToFuzzy", {"Direction": "HighToLow"})]
+    for cmd, params in cases:
+        for shape in ((1,), (4,), (2, 3), (2, 1, 2)):
+            for v in (2.5, 0.0, -7.0, 3):
+                for form in ("plain", "masked", "masked with a missing cell"):
+                    d = numpy.full(shape, v, dtype=float if isinstance(v, float) else int)
+                    if form == "plain":
+                        a = d
+                    else:
+                        m = numpy.zeros(shape, dtype=bool)
+                        if form != "masked" and d.size > 1:
+                            m.ravel()[0] = True
+                            d.ravel()[0] = 99
+                        a = numpy.ma.array(d, mask=m)
+                    c = eems.Case(cmd, params, [a])
+                    out = eems.run_impl(c, plain=(form == "plain"))
+                    ctx.case("no spread %s %r %r %r %s" % (cmd, params, shape, v, form), sample=None)
+                    ctx.count("c04_fields_without_spread")
+                    if out["status"] != "ok":
+                        continue
+                    r = out["result"]
+                    vis = numpy.ma.masked_array(r).compressed()
+                    bad = [x for x in numpy.asarray(vis, dtype=float).tolist() if not (-1 <= x <= 1)]
+                    if bad:
+                        ctx.fail("%s on a field whose present cells all hold %r (%s, shape %r) returns %r at a present cell: outside [-1, 1]" % (cmd, v, form, shape, bad[0]),
+                                 {"cmd": cmd, "params": params, "field": "every present cell holds %r" % (v,), "shape": list(shape), "form": form})
+
+
 def coinciding_thresholds(ctx):
     """CvtToFuzzy with a threshold left out (its value then comes from the data: the minimum / maximum of the field) that COINCIDES with the other one: constant
     fields with no threshold or one threshold given, fields whose minimum / maximum is the given threshold (TrueThreshold = 0 on counts that start at 0), both
@@ -425,6 +461,7 @@ def run(ctx):
     eems.run_stream(ctx, model, eems.gen_chains(ctx.rng, ctx.budget(60, 2500), chain_consumers), "exec:fuzzy-chains", on_result=oracle(ctx))
     eems.run_stream(ctx, model, directed_chains(), "exec:fuzzy-chains-directed", on_result=oracle(ctx))
     coinciding_thresholds(ctx)
+    fields_without_spread(ctx)
     after_write(ctx, ctx.budget(20, 600))
     after_consumers(ctx)
     derived_producers(ctx)
